@@ -13,6 +13,8 @@
 (*                                received; mark = HMAC-SHA1 mark verified *)
 (*                                by the harness's own implementation      *)
 (*   {"ev":"NoResp","c"}          fault injection: no response stream       *)
+(*   {"ev":"Panic","c","where","msg","cls"}  the code under test panicked  *)
+(*                                while serving this connection            *)
 (*   {"ev":"End","c","closed","probe","bytes","dial","authm","early"}      *)
 (*        AddClosed status, AddProbe status ("" = not called), bytes the   *)
 (*        client received in all, dial seen, AddAuthenticated argument,    *)
@@ -153,10 +155,19 @@ TrNoResp ==
      ELSE UNCHANGED <<cache, seen, salts, conn>> /\ NoteDrift("noresp-phase")
   /\ UNCHANGED <<tr, ntraces, presented, mass>> /\ NoViol
 
+\* the code under test panicked while working for this connection (recovered per connection, as service.StreamServe
+\* does): the client is dropped.  No behaviour of TcpAuth.tla ends a connection this way - after Hello the authenticator
+\* decides, after an acceptance the response starts with a fresh salt (or, under an injected entropy fault, not at all).
+TrPanic ==
+  /\ IsEvent("Panic")
+  /\ conn' = [conn EXCEPT ![Ev.c] = [@ EXCEPT !.ph = "closed"]]
+  /\ NoteViolC("handshake-crashed", Ev.cls)
+  /\ UNCHANGED <<cache, seen, salts, tr, ntraces, presented, mass>> /\ NoDrift
+
 \* remarks of the driver (e.g. an accepted recording carries no request)
 TrNote == IsEvent("Note") /\ UNCHANGED <<vars, viols, drift, dkind, ntraces, presented, mass>>
 
-TraceNext == TrNote \/ TrNoResp \/ TrNew \/ TrHello \/ TrAuth \/ TrResp \/ TrEnd \/ TrMass
+TraceNext == TrNote \/ TrPanic \/ TrNoResp \/ TrNew \/ TrHello \/ TrAuth \/ TrResp \/ TrEnd \/ TrMass
 TraceSpec == TraceInit /\ [][TraceNext]_<<vars, tvars>>
 
 Report == (l = Len(Trace) + 1) =>
